@@ -599,6 +599,8 @@ func c18Check(c C18Case, cx *h.Ctx) *h.Failure {
 			cx.Skip("ignoreorder_ring_status_undefined")
 		} else if wantIO && !gotIO && (extremeRing(p.m1) || extremeRing(p.m2)) {
 			return h.Failf("exactequals/ignoreorder-ring-extreme-magnitude", "ExactEquals(%s,%s,IgnoreOrder)=false for rings that differ only by rotation; their coordinates are so small/large that the library's ring (simplicity) test under/overflows%s", p.n1, p.n2, desc())
+		} else if wantIO && !gotIO && (misjudgedRing(p.m1) || misjudgedRing(p.m2)) {
+			return h.Failf("exactequals/ignoreorder-ring-float-simplicity", "ExactEquals(%s,%s,IgnoreOrder)=false for rings that differ only by rotation/direction; LineString.IsRing(), evaluated in float64, rejects a closed line that is exactly simple (nearly collinear adjacent segments)%s", p.n1, p.n2, desc())
 		} else if gotIO != wantIO {
 			return h.Failf("exactequals/ignoreorder", "ExactEquals(%s,%s,IgnoreOrder)=%v, brute-force order-insensitive comparison says %v%s", p.n1, p.n2, gotIO, wantIO, desc())
 		}
@@ -623,6 +625,8 @@ func c18Check(c C18Case, cx *h.Ctx) *h.Failure {
 			return h.Failf("exactequals/both-asymmetric", "IgnoreOrder+ToleranceXY(%v): (A,B)=%v (B,A)=%v%s", c.Tol, gotBoth, revBoth, desc())
 		case gotBoth != wantBoth && (extremeRing(c.A) || extremeRing(c.B)) && wantBoth:
 			return h.Failf("exactequals/ignoreorder-ring-extreme-magnitude", "IgnoreOrder+ToleranceXY(%v) = false for rotated rings at extreme magnitude%s", c.Tol, desc())
+		case gotBoth != wantBoth && wantBoth && (misjudgedRing(c.A) || misjudgedRing(c.B)):
+			return h.Failf("exactequals/ignoreorder-ring-float-simplicity", "IgnoreOrder+ToleranceXY(%v) = false for rotated rings that LineString.IsRing() (float64) rejects although they are exactly simple%s", c.Tol, desc())
 		case gotBoth != wantBoth:
 			return h.Failf("exactequals/both-options", "ExactEquals(A,B,IgnoreOrder,ToleranceXY(%v))=%v, brute-force matching says %v%s", c.Tol, gotBoth, wantBoth, desc())
 		}
@@ -723,6 +727,32 @@ func extremeRing(g gm.G) bool {
 					found = true
 				}
 			}
+		}
+	}
+	g.Norm().Walk(func(n gm.G) {
+		if n.T == gm.LineString {
+			chk(n.Co, n.CT)
+		}
+		for _, r := range n.Rings {
+			chk(r, n.CT)
+		}
+	})
+	return found
+}
+
+// misjudgedRing: some closed line or polygon ring of g is exactly simple (rational arithmetic) while the
+// library's LineString.IsRing(), evaluated in float64, says it is not a ring.  This is the root cause of
+// the open findings F18/F28: ExactEquals only tries rotations when IsRing() holds.
+func misjudgedRing(g gm.G) bool {
+	found := false
+	chk := func(fs []gm.F, ct int) {
+		li := analyseLine(fs, ct)
+		if !li.closed || !li.clean || !li.ring {
+			return
+		}
+		ls := gm.G{T: gm.LineString, CT: ct, Co: fs}.ToGeom()
+		if ls.IsLineString() && !ls.MustAsLineString().IsRing() {
+			found = true
 		}
 	}
 	g.Norm().Walk(func(n gm.G) {
